@@ -531,13 +531,20 @@ SLOTS = [
 ]
 
 
+# equivalent spellings of one slot sequence (the two case foldings agree on the only literal that matters)
+SLOT_ALTERNATIVES = {
+    'accept_BooleanNode': [["_V = node.value.lower() == 'true'", 'return property(lambda: _V)']],
+}
+
+
 def slots(ctx):
     repo = ctx.repo
     r = ctx.rule('C04-SLOTS', 'operand roles of the statement evaluators (slot table)', floor=14,
                  oracle='grammar field names of the Node classes (from/to/using, variable/expression, key letter)')
     for h, pats, what in SLOTS:
         fn = repo.func(AW + '.' + h)
-        ok = pm.match_canon(pats, body_without_doc(fn)) is not None
+        alts = [pats] + SLOT_ALTERNATIVES.get(h, [])
+        ok = any(pm.match_canon(a_, body_without_doc(fn)) is not None for a_ in alts)
         r.check(ok, '%s: %s' % (h, what), fn, construct=AW + '.' + h, key='slots',
                 msg='%s no longer has the operand roles of `%s` (expected the statement sequence %s)' % (h, what, pats))
     # select variable is bound to the query result
